@@ -421,6 +421,56 @@ def meson_lib(config):
     return dict(dir=os.path.join(d, 'b', 'src'), so=os.path.join(d, 'b', 'src', 'libxrl.so'), cfgdir=os.path.join(d, 'b'))
 
 
+PUBLIC_HELPERS = ('Crystal_F_H_StructureFactor2', 'Crystal_F_H_StructureFactor_Partial2', 'Refractive_Index2', 'xrl_error_new', 'xrl_error_new_literal',
+                  'xrl_error_new_valist', 'xrl_set_error', 'xrl_set_error_literal', 'xrl_verif_hook')
+
+
+def hostile_host(config):
+    """a preload object that plays the HOST PROGRAM of the meson-built library: it defines, as its own globals, every name the library uses
+    internally and does not export (functions that end the process with a message when called, zero-filled objects of the same size).
+    A library whose internals are really internal never sees them; one that lets the host pre-empt a helper or a table does.
+    returns dict(so, names)"""
+    L = meson_lib(config)
+
+    def mk(d):
+        def nm(args, path):
+            return [l.split() for l in _run(['nm'] + args + [path]).split('\n') if l.strip()]
+        # "exported" is what the public headers declare (plus the helper entry points of the bindings), NOT what the dynamic symbol table of
+        # this build happens to list: a build that exports its internals must still meet a host that defines them
+        exported = {x['name'] for x in json.load(open(os.path.join(sigtab(), 'sigtab.json')))['declared']} | set(PUBLIC_HELPERS)
+        taken = set()
+        for lib in ('libc.so.6', 'libm.so.6', 'libpthread.so.0', 'libdl.so.2', 'ld-linux-x86-64.so.2', 'libgcc_s.so.1'):
+            for dd in ('/lib/x86_64-linux-gnu', '/usr/lib/x86_64-linux-gnu', '/lib64'):
+                q = os.path.join(dd, lib)
+                if os.path.exists(q):
+                    taken |= {t[-1].split('@')[0] for t in nm(['-D', '--defined-only'], q)}
+                    break
+        funcs, objs = [], {}
+        for t in nm(['-S', '--defined-only'], L['so']):
+            name = t[-1]
+            if not re.fullmatch(r'[A-Za-z][A-Za-z0-9_]*', name) or name in exported or name in taken or name.startswith('xv_') or name in ('deregister_tm_clones', 'register_tm_clones', 'frame_dummy'):
+                continue
+            kind = t[-2]
+            if kind in 'tT':
+                funcs.append(name)
+            elif kind in 'bBdDrR' and len(t) == 4:
+                objs[name] = max(objs.get(name, 0), int(t[1], 16))
+        funcs = sorted(set(funcs) - set(objs))
+        if len(funcs) + len(objs) < 20:
+            raise BuildError('the symbol table of the meson-built library lists only %d internal names (stripped?)' % (len(funcs) + len(objs)))
+        src = ['#include <unistd.h>', '#include <string.h>',
+               'static void xv_bound(const char *n){ const char *m = "xv-hostile-host: the library bound its internal symbol to the definition of the host program: "; '
+               'write(2, m, strlen(m)); write(2, n, strlen(n)); write(2, "\\n", 1); _exit(97); }']
+        src += ['void %s(void){ xv_bound("%s"); }' % (f, f) for f in funcs]
+        src += ['char %s[%d];' % (o, max(n, 1)) for o, n in sorted(objs.items())]
+        c = os.path.join(d, 'host.c')
+        open(c, 'w').write('\n'.join(src) + '\n')
+        _run(['gcc', '-w', '-shared', '-fPIC', '-O0', c, '-o', os.path.join(d, 'libhost.so')])
+        json.dump(dict(functions=funcs, objects=sorted(objs)), open(os.path.join(d, 'names.json'), 'w'))
+    d = _target('hostile-host-%s' % config, mk)
+    return dict(so=os.path.join(d, 'libhost.so'), names=json.load(open(os.path.join(d, 'names.json'))))
+
+
 def harness_meson(config, name='xrlmon'):
     """harness program linked against meson_lib(config) (shared); the monitor sources are compiled with the plain flags"""
     L = meson_lib(config)
